@@ -287,6 +287,26 @@ pub fn exec_snap_n<N: Analysis<Main> + Default + 'static>(ops: Vec<Op>, seed: u6
         // first dump and must give the dump taken after the first insertion.  One insertion per case is judged by the model
         // (the case line carries one "before" state); the harness predicates below hold for every one.
         let mut first = true;
+        // the hit path of `add` (`Snap.add`: the stored invocation is returned, the state is left alone), on every probe that is found
+        for n in probes.iter() {
+            if let Ok(Some(a)) = guarded(|| eg.lookup(n)) {
+                let before = strip_uf(&eg.verif_snapshot(|_| "-".to_string()).trim_end().replace('\n', "~"));
+                match guarded(|| eg.add(n.clone())) {
+                    Ok(r) => {
+                        if r != a {
+                            tags.push("viol:add-of-known-node-differs-from-lookup".to_string());
+                        }
+                    }
+                    Err(e) => {
+                        tags.push("viol:add-panics".to_string());
+                        tags.push(format!("panic:{e}"));
+                    }
+                }
+                if strip_uf(&eg.verif_snapshot(|_| "-".to_string()).trim_end().replace('\n', "~")) != before {
+                    tags.push("viol:add-of-known-node-changed-the-state".to_string());
+                }
+            }
+        }
         for n in probes.iter().take(10) {
             if !matches!(guarded(|| eg.lookup(n)), Ok(None)) {
                 continue;
